@@ -33,7 +33,8 @@ def gen_cases(seed, tier):
     for i in range(n):
         spec = gen.random_spec(rng, smin=3, smax=40, avg="unichain")
         eps = float(spec["scale"] * 10.0 ** rng.uniform(-6, -1))
-        cases.append(dict(kind="gen", spec=spec, epsilon=eps, eps_rel=eps / spec["scale"],
+        chunks = [int(x) for x in rng.integers(1, 16, size=40)] if rng.random() < 0.5 else None
+        cases.append(dict(kind="gen", spec=spec, epsilon=eps, eps_rel=eps / spec["scale"], chunks=chunks,
                           max_batch_size=common.batch_choices(rng, spec["S"]), devices=int(rng.choice(devs)),
                           warm=bool(rng.random() < 0.15)))
     for name, params in shipped.SMALL:
@@ -80,28 +81,49 @@ def run_case(case):
     shape, n_pad, part = common.partition_class(s)
     v0 = target.np_values(s.values)
     cap = 20000
-    res = target.solve(s, cap)
+    # half of the cases reach convergence through a history of several solve() calls
+    chunks = case.get("chunks") or []
+    res = None
+    n_calls = 0
+    for k in chunks:
+        it0 = int(s.iteration)
+        res = target.solve(s, int(k))
+        n_calls += 1
+        if int(res.info.iteration) - it0 < int(k):
+            break          # this call reported convergence
+    else:
+        it0 = int(s.iteration)
+        res = target.solve(s, cap)
+        n_calls += 1
+        if int(res.info.iteration) - it0 >= cap:
+            return dict(status="skip", reason="not_converged")
     it = int(res.info.iteration)
-    if it >= cap:
-        return dict(status="skip", reason="not_converged")
-    v = target.np_values(res.values)
-    gain = float(np.asarray(res.info.gain))
-    slack = 1e-9 * (1 + abs(g1) + scale + float(np.abs(v).max()))
-    fails = []
-    if not abs(gain - g1) <= eps + slack:
-        fails.append(f"|reported gain {gain:.9g} - g* {g1:.9g}| = {abs(gain - g1):.4g} > eps {eps:.4g}")
-    pidx = target.policy_indices(res.policy, np.asarray(problem.action_space))
-    if (pidx < 0).any() or len(pidx) != S:
-        return dict(status="violation", kind="policy-row", detail="policy row outside the action space")
-    try:
-        gp, _ = refmdp.avg_eval(P, R, pidx)
-    except Exception:  # noqa: BLE001
+    def judge(res):
+        v = target.np_values(res.values)
+        gain = float(np.asarray(res.info.gain))
+        slack = 1e-9 * (1 + abs(g1) + scale + float(np.abs(v).max()))
+        fails = []
+        if not abs(gain - g1) <= eps + slack:
+            fails.append(f"|reported gain {gain:.9g} - g* {g1:.9g}| = {abs(gain - g1):.4g} > eps {eps:.4g}")
+        pidx = target.policy_indices(res.policy, np.asarray(problem.action_space))
+        if (pidx < 0).any() or len(pidx) != S:
+            return None, None, None, None, None, ["policy row outside the action space"]
+        try:
+            gp, _ = refmdp.avg_eval(P, R, pidx)
+        except Exception:  # noqa: BLE001
+            return v, gain, None, None, slack, None
+        if not g1 - gp <= eps + slack:
+            fails.append(f"gain of returned policy {gp:.9g} is {g1 - gp:.4g} below optimal (> eps {eps:.4g})")
+        resid = float(np.abs((R + P @ v).max(1) - v - gain).max())
+        if not resid <= eps + slack:
+            fails.append(f"optimality-equation residual {resid:.4g} > eps {eps:.4g}")
+        return v, gain, gp, resid, slack, fails
+
+    v, gain, gp, resid, slack, fails = judge(res)
+    if fails is None:
         return dict(status="skip", reason="returned_policy_not_unichain")
-    if not g1 - gp <= eps + slack:
-        fails.append(f"gain of returned policy {gp:.9g} is {g1 - gp:.4g} below optimal (> eps {eps:.4g})")
-    resid = float(np.abs((R + P @ v).max(1) - v - gain).max())
-    if not resid <= eps + slack:
-        fails.append(f"optimality-equation residual {resid:.4g} > eps {eps:.4g}")
+    if v is None:
+        return dict(status="violation", kind="policy-row", detail=fails[0])
     if warm:
         first = "warm"
     else:
@@ -110,8 +132,21 @@ def run_case(case):
                 resid_ratio=resid / eps, batch_shape=list(shape), n_pad=n_pad)
     if fails:
         return dict(status="violation", kind="gain",
-                    detail=f"rvi eps={eps:.6g} it={it} init={case.get('spec', {}).get('init')} warm={case.get('warm')} "
+                    detail=f"rvi eps={eps:.6g} it={it} calls={n_calls} history={chunks or 'single call'} init={case.get('spec', {}).get('init')} warm={case.get('warm')} "
                            f"v0[last]={v0[-1]:.6g}: " + "; ".join(fails), **base)
+    # calling solve() again on the converged solver reports convergence again (one further sweep):
+    # the same guarantees must hold for that report
+    it0 = int(s.iteration)
+    res2 = target.solve(s, 5)
+    reentry = None
+    if int(res2.info.iteration) - it0 < 5:
+        v2, gain2, gp2, resid2, slack2, fails2 = judge(res2)
+        if fails2:
+            return dict(status="violation", kind="gain-after-reentry",
+                        detail=f"rvi eps={eps:.6g}: solve() called again on the converged solver (iteration {it} -> "
+                               f"{int(res2.info.iteration)}, history {chunks or 'single call'}) reported convergence with: " + "; ".join(fails2), **base)
+        reentry = abs(gain2 - g1) / eps if gain2 is not None else None
+        v = v2 if v2 is not None else v
     # bounded drift under continuation
     before = float(np.abs(v).max())
     for _ in range(M_DRIFT):
@@ -124,7 +159,8 @@ def run_case(case):
                            f"(allowed {3 * M_DRIFT * eps:.6g}; g*={g1:.6g})", **base)
     Qh = R + P @ h
     nontrivial = bool((Qh.max(1) - Qh.min(1)).max() > 1e-6 * scale)
-    return dict(status="ok", nontrivial=nontrivial, drift_ratio=drift / (3 * M_DRIFT * eps),
+    return dict(status="ok", nontrivial=nontrivial, drift_ratio=drift / (3 * M_DRIFT * eps), solve_calls=n_calls,
+                reentry_gain_ratio=reentry,
                 cls=[struct, f"delta={case.get('spec', {}).get('delta')}", case.get("spec", {}).get("init", "shipped"),
                      gen.eps_bucket(case["eps_rel"]), part, first], **base)
 
@@ -135,6 +171,8 @@ def aggregate(records, cases):
     return dict(worst_gain_ratio=w("gain_ratio"), worst_policy_ratio=w("policy_ratio"),
                 worst_residual_ratio=w("resid_ratio"), worst_drift_ratio=w("drift_ratio"),
                 first_sweep_convergences=sum(1 for r in ok if r["cls"][5] in ("sweep1", "warm")),
+                multi_call_runs=sum(1 for r in ok if r.get("solve_calls", 1) > 1),
+                reentry_reports_judged=sum(1 for r in ok if r.get("reentry_gain_ratio") is not None),
                 nonzero_init_runs=sum(1 for r in ok if r["cls"][2] in ("const", "random", "far")))
 
 
